@@ -304,4 +304,26 @@ end
 /-- `DictMapper.map(data, name, location)` -/
 def mapDict (e : SEnv) (kvs : List (Str × JVal)) (name : Str) : Option (List Cls) := dictClass e kvs name
 
+/-- `DictMapper.map(obj, name, dirname)` for one item of a document; an item that is no object has
+no `.items()` -/
+def mapJsonItem (e : SEnv) (name : Str) (x : JVal) : Except String (List Cls) :=
+  match x with
+  | .dict kvs => match mapDict e kvs name with
+    | some cs => .ok cs
+    | none => .error "IndexError"
+  | _ => .error "AttributeError"
+
+/-- `ResourceTransformer.process_json_documents` for one loaded document: an object is mapped, an
+array is mapped item by item (`if isinstance(data, dict): data = [data]`, `for obj in data`).
+`error` = the exception that leaks (only `ValueError` is caught there): a number / boolean / null
+cannot be iterated, a string is iterated character by character. -/
+def mapJsonDoc (e : SEnv) (doc : JVal) (name : Str) : Except String (List Cls) :=
+  match doc with
+  | .dict kvs => mapJsonItem e name (.dict kvs)
+  | .list xs => match xs.mapM (mapJsonItem e name) with
+    | .ok css => .ok css.flatten
+    | .error k => .error k
+  | .scalar (.str s) => if s.isEmpty then .ok [] else .error "AttributeError"
+  | .scalar _ => .error "TypeError"
+
 end Xs.Samples
